@@ -30,6 +30,12 @@ Inductive c34case :=
 | CMsg (mk : mkind) (k : skind) (bufsize budget cl : Z) (sendBody flush closer : bool)
        (hdr trailer data : bytes) (script : list rdop)
        (o : wobs) (attached : bool) (closes : N) (wire produced : bytes) (final_closes : N)
+(* the same with a stream that implements BodyWriterTo: segs = the Write calls its WriteTo makes (empty ones
+   included); support = SupportsBodyWriteTo().  next = a pipelined second message put behind the wire,
+   dec = what the real reader made of wire ++ next (consumed counted from the end of the head) *)
+| CMsgWT (mk : mkind) (support : bool) (bufsize budget cl : Z) (sendBody flush : bool)
+         (hdr trailer : bytes) (segs : list bytes)
+         (o : wobs) (attached : bool) (closes : N) (wire next : bytes) (dec : robs) (final_closes : N)
 (* chunks written by the real writer, the wire it produced, and what the real reader made of wire ++ tail *)
 | CRound (max : Z) (chunks : list bytes) (wire tail : bytes) (o : robs)
 (* any bytes as a chunked body (cl = -1) through Response.ReadLimitBody / Request.ReadLimitBody *)
@@ -93,6 +99,8 @@ Fixpoint life_corr (mk : mkind) (st : lstate) (steps : list (lop * bool * list N
       end
   end.
 
+Definition res_ok_b (r : wres) : bool := match r with WOk => true | _ => false end.
+
 (* ---------------- correspondence ---------------- *)
 Definition corr_ok (c : c34case) : bool :=
   match c with
@@ -111,6 +119,24 @@ Definition corr_ok (c : c34case) : bool :=
       && Bool.eqb (negb (ws_closed out)) attached
       && (closes =? (if ws_closed out && closer then 1 else 0))%N
       && match k with KBytesReader => true | KReader => beq produced (btake (blen data - blen (ss_data (ws_s out))) data) end
+  | CMsgWT mk support size budget cl sendBody flush hdr trailer segs o attached closes wire next dec final_closes =>
+      let '(w, r, closed) :=
+        if support then
+          let '(w, r) := respWriteBodyStreamWT hdr trailer cl (match mk with MReq => true | MResp => sendBody end)
+                                               (match mk with MReq => false | MResp => flush end) (bw_new size budget) segs in
+          (w, r, true)
+        else
+          let out := match mk with
+                     | MResp => respWriteBodyStream KReader hdr trailer cl sendBody flush (bw_new size budget) (mkSS (concat segs) [])
+                     | MReq => reqWriteBodyStream KReader hdr trailer cl (bw_new size budget) (mkSS (concat segs) [])
+                     end in
+          (ws_w out, ws_res out, ws_closed out) in
+      wobs_eqb (wobs_of w r) o
+      && Bool.eqb (negb closed) attached
+      && (closes =? (if closed then 1 else 0))%N
+      && (if res_ok_b r && (budget <? 0) && (cl <? 0)
+          then robs_eqb (robs_of (blen wire - blen hdr + blen next) (model_read_chunked mk 0 (skipn (length hdr) wire ++ next))) dec
+          else true)
   | CRound max chunks wire tail o =>
       beq (enc_chunked_message chunks) wire
       && robs_eqb (robs_of (blen wire + blen tail) (respReadBody trailer_reject (-1) max 0 [] (wire ++ tail))) o
@@ -168,6 +194,20 @@ Definition prop_ok (c : c34case) : bool :=
             let body := skipn (length hdr) wire in
             if cl >=? 0 then received_fixed_ok body produced
             else received_chunked_ok body produced
+          else true)
+  | CMsgWT mk support size budget cl sendBody flush hdr trailer segs o attached closes wire next dec final_closes =>
+      (final_closes =? 1)%N && (closes <=? final_closes)%N
+      && (if res_ok (wo_res o) && (budget <? 0) && (sendBody || match mk with MReq => true | MResp => false end) then
+            let body := skipn (length hdr) wire in
+            if cl >=? 0 then received_fixed_ok body (concat segs)
+            else
+              (* the peer decodes the concatenation of the segments, and nothing but the (empty) trailer
+                 section is left: the pipelined message behind it starts where it should *)
+              match dechunk body with
+              | Some (b, rest) => beq b (concat segs) && beq rest trailer
+              | None => false
+              end
+              && robs_eqb dec (ROk (concat segs) (blen body))
           else true)
   | CRound max chunks wire tail o =>
       if (max <=? 0) || (blen (concat chunks) <=? max) then robs_eqb o (ROk (concat chunks) (blen wire)) else true
